@@ -13,23 +13,39 @@ a freshly constructed EQUAL object (never the object stored in the hypergraph), 
 list, set, frozenset, range, generator, iterator, dict, dict keys, numpy array, string of one-letter labels, arguments are
 passed positionally / by keyword / left out, the caller overwrites its own argument containers after the call and the
 containers it got back from the queries (lists, dicts, the aggregated Hypergraph), and then asks everything again.
+
+Round d: "every MultiplexHypergraph" includes the ones that come out of OTHER parts of the library. At the start and in the
+middle of 45 % of the histories the object goes through save_hypergraph / load_hypergraph (binary and text format, temporary
+files), pickle, copy.deepcopy, copy.copy, expose_data_structures / populate_from_dict, or is rebuilt by the constructor from
+what its getters return; the history continues on the result or on the original, both are asked every query (layers in use,
+aggregate and overlap included) and whatever the caller does to the one must not show in the other. Layer names are drawn
+from universes of mixed, mutually UNORDERABLE types (2019 next to 'all-time' and None, tuples, bytes, frozensets, all falsy
+names, names that differ from another only by type: None / 'None', 1 / '1'), labels and names with colliding hashes
+(-1 / -2, 2**61-1 / 0), equal values of other numeric types (3 / 3.0 / numpy.int64(3), 1 / True) for labels, layer names,
+weights, sizes and flags; refused calls that name a never-seen layer / node / an existing record are placed inside the histories.
 """
 import contextlib
 import copy
 import io
 import json
 import os
+import pickle
 import random
 import signal
+import tempfile
 import zlib
 
 import numpy as np
 
 import hgxv
 
-RULE = ("random histories of 1-40 public calls on one MultiplexHypergraph (3-6 nodes, 2-3 layer names; 11 labelings: small / "
-        "large (> 256, > 2**63) / negative ints, floats, literal and run-time strings as node labels, strings, ints, floats, tuples "
-        "as layer names; both weightedness settings, 45 % of the unweighted histories promoted by add_edges(weights=...) and "
+RULE = ("random histories of 1-40 public calls on one MultiplexHypergraph (3-6 nodes, 2-5 layer names, the later ones rare; 17 "
+        "labelings: small / large (> 256, > 2**63) / negative ints, floats, literal and run-time strings, hash-colliding ints as "
+        "node labels; strings, ints, floats, tuples and - 6 labelings - names of mutually unorderable types (int / str / None / "
+        "tuple / bytes / frozenset / float, all falsy names, type twins like None and 'None') as layer names; 45 % of the histories "
+        "send the object 1-3 times through save+load (binary, text), pickle, deepcopy, copy, expose/populate or a rebuild by the "
+        "constructor, at position 0 or later, and continue on the result or the original (both are queried, the other one is then "
+        "changed by the caller); both weightedness settings, 45 % of the unweighted histories promoted by add_edges(weights=...) and "
         "continued with real weights; 15 % built through the constructor): add_node(s), add_edge (permuted node order, a pool "
         "of 3-5 node sets re-used across layers), add_edges (same node set in several layers, also twice in the same layer, "
         "wrong-length layer/weight/metadata lists), remove_edge, remove_node with both keep_edges, set_weight, all metadata "
@@ -45,7 +61,14 @@ ASSUMPTIONS = ["hyperedges are duplicate-free node sets over mutually comparable
                "are not tuples (a pair of tuples is read by _canon_edge as a directed (source, target) pair - by design)",
                "labels / layer names reach the model as their rank; weights are multiples of 1/4 (exact in binary64)",
                "a rejected call is one that raises any exception; it must leave every query unchanged",
-               "layers in use = registry of layer names seen by accepted insertions (get_existing_layers)",
+               "layers in use = registry of layer names seen by accepted insertions (get_existing_layers); layer names are hashable "
+               "objects compared by == only - they need not be comparable with each other",
+               "an object obtained by pickle / copy.deepcopy / save_hypergraph(binary=True)+load_hypergraph / populate_from_dict("
+               "expose_data_structures()) is the same map with the same registry; through the text format (and through the "
+               "constructor fed with the getters' results) it is what the loader's own public calls build: same nodes, records, "
+               "weights, metadata plus the reserved fields 'layer' / 'weight' the format adds, registry = layers of the records; "
+               "the text format is only used where JSON carries labels and names unchanged (numbers / strings / null, string keys "
+               "in the hypergraph metadata, no numpy scalars)",
                "edge_overlap(e) = sum over layers of get_weight(e, layer) (also for unweighted hypergraphs)",
                "a node set may be any finite iterable of labels; argument LISTS (hyperedges, layers, weights, metadata, nodes) are "
                "sized re-iterable collections (list, tuple, numpy array; for add_nodes also set / frozenset / dict keys); the "
@@ -67,19 +90,33 @@ FIELDS = [100, 101, 102]
 # node labels / layer names per rank (node labels ascending); they include the falsy labels 0 and '' and layer names equal to
 # node labels; from 6 on: objects that CPython does not share (ints > 256, run-time strings, floats, tuples)
 LABELINGS = [
-    {"nodes": [0, 1, 2, 3, 4, 5], "layers": ["A", "B", "C"]},
+    {"nodes": [0, 1, 2, 3, 4, 5], "layers": ["A", "B", "C", "D"]},
     {"nodes": [10, 13, 21, 22, 40, 57], "layers": ["", "work", "x"]},
-    {"nodes": ["", "a", "ba", "c", "d", "zz"], "layers": ["L1", "L2", "L3"]},
+    {"nodes": ["", "a", "ba", "c", "d", "zz"], "layers": ["L1", "L2", "L3", "L10", "l1"]},
     {"nodes": [3, 4, 8, 9, 11, 12], "layers": [7, 8, 9]},
-    {"nodes": [0, 1, 2, 3, 4, 5], "layers": [0, 1, 2]},
+    {"nodes": [0, 1, 2, 3, 4, 5], "layers": [0, 1, 2, 3]},
     {"nodes": ["a", "b", "c", "d", "e", "f"], "layers": ["a", "b", "c"]},
     {"nodes": [1000, 1001, 1002, 1003, 1004, 1005], "layers": [300, 1000, 70000]},
     {"nodes": [257, 1000, 4096, 2 ** 31, 2 ** 63, 2 ** 70 + 1], "layers": ["layer one", "layer two", "λ3"]},
     {"nodes": ["n-10", "n-11", "n-2", "node three", "zz top", "ü"], "layers": [("L", 1), ("L", 2), ("M", 0)]},
     {"nodes": [-2.5, 0.5, 1.5, 2.25, 1e18, 3e300], "layers": [-1.0, 1.5, 2.5]},
     {"nodes": [-70000, -300, -6, 300, 70000, 10 ** 20], "layers": ["a b", "a  b", "a b "]},
+    # round d: "any finite set of layer names" - names of different, mutually UNORDERABLE types in one hypergraph (a layer name
+    # is only ever a dict / set key), falsy names of every type, names and labels whose hashes collide
+    {"nodes": [0, 1, 2, 3, 4, 5], "layers": [2019, 2020, "all-time", None]},
+    {"nodes": ["a", "b", "c", "d", "e", "f"], "layers": [("x", 1), "x", 1.5, None, b"x"]},
+    {"nodes": [-2, -1, 0, 1, 2 ** 61 - 1, 2 ** 61], "layers": [-1, -2, 2 ** 61 - 1, 0, "-1"]},
+    {"nodes": [-2, -1, 300, 301, 2 ** 61 - 1, 2 ** 61 + 299], "layers": [None, "", 0, (), frozenset()]},
+    {"nodes": [-2, -1, -0.5, 0, 1, 2 ** 53], "layers": [1, "1", 1.5, (1,), frozenset([1])]},
+    {"nodes": ["0", "1", "10", "2", "None", "none"], "layers": ["None", None, "none", 0.0, "0"]},
 ]
 assert all(sorted(lb["nodes"]) == lb["nodes"] for lb in LABELINGS)
+assert all(len(set(lb["layers"])) == len(lb["layers"]) and len(set(lb["nodes"])) == 6 for lb in LABELINGS)
+# what the text format can carry unchanged: JSON numbers / strings as labels, numbers / strings / null as layer names
+JSON_OK = [all(type(x) in (int, float, str) for x in lb["nodes"]) and all(type(x) in (int, float, str, type(None)) for x in lb["layers"])
+           for lb in LABELINGS]
+# reserved metadata fields written by the text format (tokens of the model): "layer" -> 200 : 300 + rank, "weight" -> 201 : 400 + quanta
+F_LAYER, F_WEIGHT, T_LAYER, T_WEIGHT = 200, 201, 300, 400
 
 
 # ------------------------------------------------------------------------------------------ rendering
@@ -106,6 +143,20 @@ def pyw(q, flip):
     if q % 4:
         return q / 4
     return float(q // 4) if flip else q // 4
+
+
+def wobj(w, rs):
+    """the same weight as a value of another numeric type (1 as True, numpy scalars)"""
+    if w is None:
+        return w
+    r = rs.random()
+    if r < 0.08:
+        return np.float64(w)
+    if r < 0.11 and NP_OK[0]:
+        return np.float32(w) if rs.random() < 0.5 or w != int(w) else np.int64(int(w))
+    if r < 0.14 and w == 1:
+        return True
+    return w
 
 
 def fq(w):
@@ -230,6 +281,36 @@ class Oracle:
             raise AssertionError(op)
         return "ok"
 
+    def through_text(self):
+        """the map that load_hypergraph(.json) builds from what save_hypergraph wrote: a NEW object filled by public calls -
+        set_hypergraph_metadata, add_node per node, add_edge per record with its weight and its metadata plus the reserved
+        fields "layer" (and "weight" when weighted); so the registry is the set of layers in use. Returns (map, calls)"""
+        o = Oracle(self.w, [])
+        calls = [["sethmeta", sorted(self.hm.items())]]
+        for n, md in self.N.items():
+            calls.append(["addnode", n, sorted(md.items())])
+        for (e, l), (w, md) in self.E.items():
+            md2 = dict(md)
+            md2[F_LAYER] = T_LAYER + l
+            if self.w:
+                md2[F_WEIGHT] = T_WEIGHT + w
+            calls.append(["addedge", sorted(e), l, w if self.w else None, sorted(md2.items())])
+        for c in calls:
+            assert o.apply(c) == "ok"
+        return o, calls
+
+    def through_ctor(self):
+        """the map of MultiplexHypergraph(edge_list=h.get_edges(), weighted=.., weights=.., hypergraph_metadata=..,
+        node_metadata=.., edge_metadata=..) fed with (copies of) what the getters of `self` return: (map, calls)"""
+        o = Oracle(self.w, sorted(self.hm.items()))
+        calls = [["addnode", n, sorted(md.items())] for n, md in self.N.items()]
+        keys = list(self.E)
+        calls.append(["addedges", [sorted(e) for e, _ in keys], [l for _, l in keys],
+                      [self.E[k][0] for k in keys] if self.w else None, [sorted(self.E[k][1].items()) for k in keys]])
+        for c in calls:
+            assert o.apply(c) == "ok"
+        return o, calls
+
     # -- queries
     def _inc(self, n, f):
         if n not in self.N or f[0] == "b":
@@ -291,7 +372,7 @@ class Oracle:
             return items(f"{fnats(sorted(e))};{sum(v[0] for (e2, _), v in self.E.items() if e2 == e) if self.w else 4}" for e in sets)
         if t == "aggweighted":
             return "1" if self.w else "0"
-        if t == "overlap":
+        if t in ("overlap", "overlapin"):
             e = frozenset(q[1])
             return str(sum(v[0] for (e2, _), v in self.E.items() if e2 == e))
         raise AssertionError(q)
@@ -306,29 +387,50 @@ def _alarm(signum, frame):
     raise Hang()
 
 
+DUMPKEYS_DIFFER = [False]
+NP_OK = [True]      # numpy scalars / arrays as presentations (off in histories that go through the text format: JSON has no int64)
+
+
 def fresh(x, rs=None):
     """an EQUAL but freshly constructed object (ints outside CPython's small-int cache, run-time strings, tuples and
-    floats are new objects on every call; with `rs` occasionally the numpy scalar of the same value)"""
+    floats are new objects on every call; with `rs` occasionally the numpy scalar of the same value, or the equal object of
+    ANOTHER numeric type: 3 as 3.0, 1e18 as 10**18, 0 / 1 as False / True - they are the same dict key)"""
     if isinstance(x, bool) or x is None:
         return x
     if isinstance(x, int):
-        if rs is not None and -2 ** 62 < x < 2 ** 62 and rs.random() < 0.08:
+        r = rs.random() if rs is not None else 1.0
+        if r < 0.08 and NP_OK[0] and -2 ** 62 < x < 2 ** 62:
             return np.int64(x)
+        if 0.08 <= r < 0.11 and abs(x) <= 2 ** 53:
+            return float(x)
+        if 0.11 <= r < 0.13 and x in (0, 1):
+            return bool(x)
         return int(str(x))
     if isinstance(x, float):
-        if rs is not None and rs.random() < 0.08:
+        r = rs.random() if rs is not None else 1.0
+        if r < 0.08 and NP_OK[0]:
             return np.float64(x)
+        if 0.08 <= r < 0.11 and x.is_integer() and abs(x) < 1e19:
+            return int(x)
         return float(repr(x))
     if isinstance(x, str):
         return "".join(list(x))
+    if isinstance(x, bytes):
+        return bytes(bytearray(x))
     if isinstance(x, tuple):
         return tuple(fresh(y) for y in x)
+    if isinstance(x, frozenset):
+        return frozenset(fresh(y) for y in x)
     return x
 
 
 def np_arr(objs):
+    """a 1-d array holding the objects; numpy's own coercions (2019 next to 'all-time' becomes the STRING '2019', ints beyond
+    2**63 floats) are the caller's business, not the library's: anything but a homogeneous int / float / str list goes into an
+    object array"""
     objs = list(objs)
-    if any(isinstance(x, int) and abs(x) >= 2 ** 62 for x in objs) or any(isinstance(x, (tuple, list)) for x in objs):
+    ts = {type(x) for x in objs}
+    if len(ts) > 1 or not ts <= {int, float, str, np.int64, np.float64} or any(isinstance(x, int) and abs(x) >= 2 ** 62 for x in objs):
         a = np.empty(len(objs), dtype=object)
         for i, x in enumerate(objs):
             a[i] = x
@@ -348,6 +450,8 @@ def mk_edge(objs, rs, stats=None, hashable=False, norepeat=True):
     if hashable:
         kinds = ["t", "t"] + [k for k in kinds if norepeat and k in "fgrS"]
     k = rs.choice(kinds)
+    if k == "n" and not NP_OK[0]:
+        k = "l"
     if stats is not None:
         stats["edge_as_" + k] = stats.get("edge_as_" + k, 0) + 1
     if k == "t":
@@ -379,6 +483,8 @@ def mk_seq(items, rs, kinds="lt", stats=None, name="seq"):
     """an argument list (hyperedges, layers, weights, metadata, nodes) as list / tuple / numpy array / set / ..."""
     items = list(items)
     k = rs.choice(kinds)
+    if k == "n" and not NP_OK[0]:
+        k = "l"
     if k == "n":
         try:
             a = np_arr(items)
@@ -478,7 +584,7 @@ class Real:
                 kw["edge_list"] = mk_seq([(e, l) for e, l in zip(edges, layers)], rs, "lt")
             else:
                 same = len({len(r) for r in raws}) == 1 and len(raws[0]) >= 1 and ws is None
-                kw["edge_list"] = mk_seq(edges, rs, "llt") if not (same and rs.random() < 0.2) else \
+                kw["edge_list"] = mk_seq(edges, rs, "llt") if not (same and rs.random() < 0.2 and NP_OK[0]) else \
                     np.array([np_arr([self.N(x, rs) for x in r]) for r in raws])
                 kw["edge_layer"] = mk_seq(layers, rs, "lltn", self.stats, "layers")
             if ws is not None:
@@ -528,6 +634,13 @@ class Real:
     def r_md(self, d):
         out = []
         for k, v in d.items():
+            if k == "layer":                # reserved fields of the text format
+                out.append((F_LAYER, T_LAYER + self.rl(v)))
+                continue
+            if k == "weight":
+                q = fq(v)
+                out.append((F_WEIGHT, T_WEIGHT + int(q) if q.isdigit() else 999))
+                continue
             kk = int(k[1:]) if isinstance(k, str) and k[:1] == "f" and k[1:].isdigit() else 998
             out.append((kk, VAL_REV.get(json.dumps(v, sort_keys=True), 999)))
         return out
@@ -535,7 +648,7 @@ class Real:
     def r_hmd(self, d):
         out = []
         for k, v in d.items():
-            if not isinstance(k, bool) and self.rl(k) < 900:
+            if self.rl(k) < 900:
                 kk = 10 + self.rl(k)
             elif k == "weighted":
                 kk = 0
@@ -607,8 +720,7 @@ class Real:
                 call(h.add_nodes, [ns], [("node_metadata", d)], rs, ["node_list"])
             elif t == "addedge":
                 w = None if op[3] is None else pyw(op[3], (len(op[1]) + op[2] + op[3]) % 2)
-                if w is not None and rs.random() < 0.1:
-                    w = np.float64(w)
+                w = wobj(w, rs)
                 md = None if op[4] is None else self.md(op[4])
                 e = self.E(op[1], rs)
                 used.append(e)
@@ -621,13 +733,13 @@ class Real:
                 norepeat = len(set(keys)) == len(keys)
                 es = [self.E(r, rs, ws is not None, norepeat) for r in raws]
                 same = ws is None and raws and len({len(r) for r in raws}) == 1 and len(raws[0]) >= 1
-                if same and rs.random() < 0.15:
+                if same and rs.random() < 0.15 and NP_OK[0]:
                     el = np.array([np_arr([self.N(x, rs) for x in r]) for r in raws])
                     self.stats["edges_as_2d"] = self.stats.get("edges_as_2d", 0) + 1
                 else:
                     el = mk_seq(es, rs, "llt")
                 lay = mk_seq([self.L(l, rs) for l in ls], rs, "lltn", self.stats, "layers")
-                wl = None if ws is None else mk_seq([pyw(w, (i + len(raws)) % 2) for i, w in enumerate(ws)], rs, "lltn",
+                wl = None if ws is None else mk_seq([wobj(pyw(w, (i + len(raws)) % 2), rs) for i, w in enumerate(ws)], rs, "lltn",
                                                     self.stats, "weights")
                 ml = None if mds is None else [self.md(m) for m in mds]
                 if ml is not None and raws and len(ml) >= len(raws) and len(ls) >= len(raws):
@@ -645,14 +757,14 @@ class Real:
                 call(h.remove_edge, [pair], [], rs, ["edge"])
             elif t == "rmnode":
                 keep = bool(op[2])
+                if rs.random() < 0.1:          # the flag as it comes out of a comparison of numpy values, or as 0 / 1
+                    keep = np.bool_(keep) if NP_OK[0] and rs.random() < 0.5 else int(keep)
                 if not keep and rs.random() < 0.6:
                     h.remove_node(self.N(op[1], rs))
                 else:
                     call(h.remove_node, [self.N(op[1], rs)], [("keep_edges", keep)], rs, ["node"])
             elif t == "setw":
-                w = pyw(op[3], (len(op[1]) + op[3]) % 2)
-                if rs.random() < 0.1:
-                    w = np.float64(w)
+                w = wobj(pyw(op[3], (len(op[1]) + op[3]) % 2), rs)
                 e = self.E(op[1], rs)
                 used.append(e)
                 call(h.set_weight, [e, self.L(op[2], rs), w], [], rs, ["edge", "layer", "weight"])
@@ -702,6 +814,13 @@ class Real:
             o, s = int(f[1]), int(f[2])
             return rs.choice([([], {"order": o, "size": s}), ([o, s], {}), ([o], {"size": s})])
         k = int(f[1:])
+        r = rs.random()          # the same count as a value of another type: 2.0, numpy.int64(2), True for 1
+        if r < 0.06:
+            k = float(k)
+        elif r < 0.1 and NP_OK[0]:
+            k = np.int64(k)
+        elif r < 0.14 and k in (0, 1):
+            k = bool(k)
         if f[0] == "s":
             return rs.choice([([], {"size": k}), ([], {"size": k}), ([None, k], {}), ([None], {"size": k}), ([], {"order": None, "size": k})])
         return rs.choice([([], {"order": k}), ([], {"order": k}), ([k], {}), ([k, None], {}), ([], {"order": k, "size": None})])
@@ -752,10 +871,17 @@ class Real:
             return items(self.rkey(x) for x in h.get_incident_edges(self.N(q[1], rs), *a, **k))
         if t == "degree":
             a, k = self.fargs(q[2], rs)
-            d = h.degree(self.N(q[1], rs), *a, **k)
+            if rs.random() < 0.3:        # the function of measures.degree itself (the method delegates to it)
+                from hypergraphx.measures.degree import degree
+                d = degree(h, self.N(q[1], rs), *a, **k)
+            else:
+                d = h.degree(self.N(q[1], rs), *a, **k)
             return str(int(d)) if d == int(d) else repr(d)
         if t == "degseq":
             a, k = self.fargs(q[1], rs)
+            if rs.random() < 0.3:
+                from hypergraphx.measures.degree import degree_sequence
+                return items(f"{self.rn(n)};{d}" for n, d in degree_sequence(h, *a, **k).items())
             return items(f"{self.rn(n)};{d}" for n, d in h.degree_sequence(*a, **k).items())
         if t == "layers":
             return items(str(self.rl(l)) for l in h.get_existing_layers())
@@ -769,9 +895,14 @@ class Real:
             return str(HVAL_REV.get(json.dumps(h.get_dataset_metadata(), sort_keys=True), 999))
         if t == "weighted":
             return "1" if h.is_weighted() is True else ("0" if h.is_weighted() is False else "weird")
-        if t == "overlap":
-            from hypergraphx.measures.multiplex import edge_overlap
+        if t in ("overlap", "overlapin"):
+            if rs.random() < 0.5:
+                from hypergraphx.measures.multiplex import edge_overlap
+            else:
+                from hypergraphx.measures.multiplex.overlap import edge_overlap
             return fq(call(edge_overlap, [h, self.E(q[1], rs)], [], rs, ["h", "edge"]))
+        if t == "dumpkeys":
+            return items(str(k) for k in h.expose_data_structures())
         st, a = self.agg()
         if st != "ok":
             return "rej"
@@ -790,12 +921,117 @@ class Real:
             return "1" if a.is_weighted() is True else ("0" if a.is_weighted() is False else "weird")
         raise AssertionError(q)
 
+    def reg_order(self):
+        """the order in which the set of layer names iterates right now (ranks)"""
+        try:
+            return [self.rl(l) for l in self.h.get_existing_layers()]
+        except Exception:
+            return []
+
     def snapshot(self):
         """the object itself (internal tables), for the unchanged-by-queries test"""
         try:
             return copy.deepcopy(self.h.expose_data_structures())
         except Exception as ex:
             return "exc " + type(ex).__name__
+
+    # ---- objects that come out of other parts of the library (round d)
+    TRANSPORTS = {
+        "hgx": "save_hypergraph(h, path + '.hgx', binary=True); load_hypergraph(path + '.hgx')",
+        "json": "save_hypergraph(h, path + '.json'); load_hypergraph(path + '.json')",
+        "pickle": "pickle.loads(pickle.dumps(h))",
+        "deepcopy": "copy.deepcopy(h)",
+        "expose": "g = MultiplexHypergraph(weighted=h.is_weighted()); g.populate_from_dict(copy.deepcopy(h.expose_data_structures()))",
+        "rebuild": "MultiplexHypergraph(edge_list=h.get_edges(), weighted=h.is_weighted(), weights=[h.get_weight(*k) ...], hypergraph_metadata=.., "
+                   "node_metadata=.., edge_metadata=..) from copies of what the getters return",
+        "copy": "copy.copy(h) (the original is dropped)",
+        "live": "g = MultiplexHypergraph(weighted=h.is_weighted()); g.populate_from_dict(h.expose_data_structures()) (the original is dropped)",
+    }
+
+    def via_kind(self, kind, orc):
+        """the text format is used where it can carry the content unchanged (JSON numbers / strings as labels, string keys in the
+        hypergraph metadata); elsewhere the binary format"""
+        if kind == "json":
+            ok = JSON_OK[LABELINGS.index(self.lab)] and not NP_OK[0]
+            ok = ok and all(isinstance(self.ll[k - 10], str) for k in orc.hm if 10 <= k < 10 + len(self.ll))
+            return "json" if ok else "hgx"
+        return kind
+
+    def transport(self, kind, rs):
+        from hypergraphx import MultiplexHypergraph
+        from hypergraphx.readwrite.load import load_hypergraph
+        from hypergraphx.readwrite.save import save_hypergraph
+        h = self.h
+        self.stats["via_" + kind] = self.stats.get("via_" + kind, 0) + 1
+        if kind == "pickle":
+            return pickle.loads(pickle.dumps(h, protocol=rs.choice([0, 2, 3, 4, 5])))
+        if kind == "deepcopy":
+            return copy.deepcopy(h)
+        if kind == "copy":
+            return copy.copy(h)
+        if kind == "rebuild":
+            recs = h.get_edges()
+            kw = {"weighted": h.is_weighted(), "hypergraph_metadata": copy.deepcopy(h.get_hypergraph_metadata()),
+                  "node_metadata": copy.deepcopy(h.get_nodes(metadata=True)),
+                  "edge_metadata": [copy.deepcopy(h.get_edge_metadata(e, l)) for e, l in recs]}
+            if rs.random() < 0.5:
+                kw["edge_list"] = list(recs)
+            else:
+                kw["edge_list"], kw["edge_layer"] = [e for e, _ in recs], [l for _, l in recs]
+            if h.is_weighted():
+                kw["weights"] = [h.get_weight(e, l) for e, l in recs]
+            return MultiplexHypergraph(**kw)
+        if kind in ("expose", "live"):
+            g = MultiplexHypergraph(weighted=h.is_weighted()) if rs.random() < 0.7 else MultiplexHypergraph()
+            d = h.expose_data_structures()
+            g.populate_from_dict(copy.deepcopy(d) if kind == "expose" else d)
+            return g
+        with tempfile.TemporaryDirectory() as d:
+            path = os.path.join(d, rs.choice(["m", "my.graph", "a b"]) + "." + kind)
+            if kind == "hgx":
+                if rs.random() < 0.5:
+                    save_hypergraph(h, path, binary=True)
+                else:
+                    save_hypergraph(h, path, True)
+            elif rs.random() < 0.6:
+                save_hypergraph(h, path)
+            else:
+                save_hypergraph(h, file_name=path, binary=False)
+            return load_hypergraph(path)
+
+    def scribble(self, g, rs):
+        """the caller goes on working with an object that must be independent of ours: public calls and edits of everything
+        its getters hand out, down into the values stored in metadata"""
+        def guard(f):
+            try:
+                f()
+            except Exception:
+                pass
+
+        def deep(md):
+            for v in list(md.values()):
+                if isinstance(v, list):
+                    v.append("zz")
+                elif isinstance(v, dict):
+                    v["zz"] = 1
+            md["zz"] = 1
+
+        w = {"weight": 7.25} if g.is_weighted() is True else {}
+        for l in range(len(self.ll)):
+            guard(lambda: g.add_edge((self.N(0), self.N(1)), self.L(l), metadata={"zz": l}, **w))
+        guard(lambda: g.add_edges([(self.N(2), self.N(0))], ["zz-layer"], weights=[3.5]))
+        guard(lambda: [deep(md) for md in g.get_nodes(metadata=True).values()])
+        guard(lambda: [deep(md) for md in g.get_edges(metadata=True).values()])
+        guard(lambda: deep(g.get_hypergraph_metadata()))
+        for k in list(g.get_edges())[:3]:
+            guard(lambda: g.set_weight(k[0], k[1], 9.75 if g.is_weighted() else 1))
+            if rs.random() < 0.5:
+                guard(lambda: g.remove_edge(k))
+        for x in list(g.get_nodes())[:rs.randint(1, 3)]:
+            guard(lambda: g.remove_node(x, keep_edges=rs.random() < 0.5))
+        guard(lambda: g.add_node("zz-node", {"zz": 1}))
+        guard(lambda: g.get_existing_layers().clear() if rs.random() < 0.5 else g.get_existing_layers().add("zz-2"))
+        guard(lambda: g.get_nodes(metadata=True).clear() if rs.random() < 0.3 else None)
 
     # ---- what a caller may do with the values it got back
     def abuse(self, orc, rs, n):
@@ -919,8 +1155,10 @@ def w_op(op):
     raise AssertionError(op)
 
 
-def w_q(q):
+def w_q(q, order=()):
     t = q[0]
+    if t == "overlapin":
+        return f"q overlapin {hgxv.enc_list(q[1])} {hgxv.enc_list(list(order))}"
     if t in ("weight", "emeta"):
         return f"q {t} {hgxv.enc_list(q[1])} {q[2]}"
     if t == "overlap":
@@ -936,9 +1174,19 @@ def gen_md(rng, p_none=0.5):
     return [[k, rng.choice(list(VAL))] for k in ks]
 
 
+VIA_KINDS = ["hgx", "hgx", "hgx", "json", "json", "json", "json", "pickle", "pickle", "deepcopy", "deepcopy", "expose", "copy", "live", "rebuild",
+             "rebuild"]
+
+
 def gen_case(rng):
+    labeling = rng.randrange(len(LABELINGS))
     n = rng.randint(3, 6)
-    nl = rng.randint(2, 3)
+    nl = rng.randint(2, len(LABELINGS[labeling]["layers"]))
+    lw = [5, 4, 2, 1, 1][:nl]      # the later layer names are rare: "never used before" happens late in a history
+
+    def lay():
+        return rng.choices(range(nl), lw)[0]
+
     weighted = rng.random() < 0.55
     wst = [weighted]          # what the generator believes about is_weighted() (promotion by a weighted batch)
     pool = []
@@ -962,6 +1210,35 @@ def gen_case(rng):
             return rng.choice([0, 1, 2, 4, 4, 6, 8, 10])
         return rng.choice([None, None, 4])
 
+    def doomed(present):
+        """a call that must be REFUSED, naming things the hypergraph may never have seen (a layer, nodes) or a record that is
+        there (with new metadata): whatever it wrote before it raised shows in the queries that follow"""
+        l = rng.randrange(nl)
+        if present and rng.random() < 0.4:
+            e, l = rng.choice(sorted(present))
+            e = list(e)
+        else:
+            e = raw() if rng.random() < 0.6 else sorted(rng.sample(range(n), rng.randint(1, min(3, n))))
+        e2 = raw()
+        md = gen_md(rng, 0.3)
+        kinds = ["short_layers", "short_meta", "short_meta", "nodes_dict"]
+        kinds += ["repeat", "repeat", "nweights", "nweights"] if wst[0] else ["weight", "weight", "weight", "setw", "nweights"]
+        k = rng.choice(kinds)
+        if k == "weight":
+            return ["addedge", e, l, rng.choice([0, 2, 6, 8]), md]
+        if k == "setw":
+            return ["setw", e, l, rng.choice([0, 2, 8])]
+        if k == "repeat":
+            return ["addedges", [e2, e, e], [lay(), l, l], [4, 2, 6], [md or [], [], []] if rng.random() < 0.4 else None]
+        if k == "nweights":
+            return ["addedges", [e2, e], [lay(), l], rng.choice([[4], [4, 2, 6], []]), None]
+        if k == "short_layers":
+            return ["addedges", [e, e2], [l], None if not wst[0] or rng.random() < 0.5 else [4, 8], None]
+        if k == "short_meta":
+            return ["addedges", [e, e2], [l, lay()], None if not wst[0] or rng.random() < 0.5 else [4, 8], [md or []]]
+        x = rng.sample(range(n), min(n, 3))
+        return ["addnodes", x, [[x[0], md or [[100, 5]]], [x[1], []]]]
+
     hm0 = []
     if rng.random() < 0.2:
         hm0 = [[rng.choice([100, 101, 2, 10]), rng.choice(list(VAL))]]
@@ -969,7 +1246,7 @@ def gen_case(rng):
     if rng.random() < 0.15:
         k = rng.randint(0, 3)
         raws = [raw() for _ in range(k)]
-        ls = [rng.randrange(nl) for _ in range(k)]
+        ls = [lay() for _ in range(k)]
         prs = set()
         keep = []
         for r, l in zip(raws, ls):
@@ -995,7 +1272,7 @@ def gen_case(rng):
             k = rng.choice([1, 2, 2, 3])
             seen, raws, ls = set(), [], []
             for _ in range(k):
-                e, l = raw(), rng.randrange(nl)
+                e, l = raw(), lay()
                 if (frozenset(e), l) not in seen or rng.random() < 0.3:
                     if (tuple(e), l) not in {(tuple(a), b) for a, b in zip(raws, ls)}:
                         seen.add((frozenset(e), l))
@@ -1006,8 +1283,10 @@ def gen_case(rng):
             for e, l in zip(raws, ls):
                 present.add((tuple(sorted(e)), l))
             wst[0] = True
+        elif r < 0.045:
+            ops.append(doomed(present))
         elif r < 0.30:
-            e, l = raw(), rng.randrange(nl)
+            e, l = raw(), lay()
             if present and rng.random() < 0.25:       # a record that is (or was) there, e.g. one that predates a promotion
                 e, l = rng.choice(sorted(present))
                 e = list(e)
@@ -1023,13 +1302,13 @@ def gen_case(rng):
             for _ in range(k):
                 e = raw()
                 raws.append(e)
-                ls.append(rng.randrange(nl))
+                ls.append(lay())
                 if rng.random() < 0.45:       # the same node set again, usually in another layer
                     e2 = list(e)
                     if rng.random() < 0.5:
                         rng.shuffle(e2)
                     raws.append(e2)
-                    ls.append(rng.randrange(nl))
+                    ls.append(lay())
             ws = None
             if rng.random() < (0.7 if wst[0] else 0.25):
                 ws = [rng.choice([0, 1, 2, 4, 4, 6, 8]) for _ in raws]
@@ -1107,8 +1386,20 @@ def gen_case(rng):
         else:
             ks = rng.sample([100, 101, 0, 1, 2, 10, 11], rng.randint(0, 3))
             ops.append(["sethmeta", [[k, rng.choice(list(HVAL))] for k in ks]])
-    return {"n": n, "nl": nl, "weighted": weighted, "hm0": hm0, "ctor": ctor, "ops": ops, "pool": pool,
-            "labeling": rng.randrange(len(LABELINGS)), "qseed": rng.randrange(1 << 30), "sty": rng.randrange(1 << 30)}
+    # objects from other parts of the library as starting point (position 0) and as mid-points of the history
+    nonp = False
+    if rng.random() < 0.45:
+        for j in range(rng.choice([1, 1, 2, 3])):
+            kind = rng.choice(VIA_KINDS)
+            pos = 0 if (j == 0 and rng.random() < 0.3) else rng.randint(0, len(ops))
+            ops.insert(pos, ["via", kind, rng.choice(["go", "go", "stay"])])
+            nonp = nonp or kind == "json"
+    if rng.random() < 0.2:          # ... and once more at the end, when the object has seen the whole history
+        kind = rng.choice(["json", "json", "hgx", "pickle", "rebuild"])
+        ops.append(["via", kind, rng.choice(["go", "stay"])])
+        nonp = nonp or kind == "json"
+    return {"n": n, "nl": nl, "weighted": weighted, "hm0": hm0, "ctor": ctor, "ops": ops, "pool": pool, "nonp": nonp,
+            "labeling": labeling, "qseed": rng.randrange(1 << 30), "sty": rng.randrange(1 << 30)}
 
 
 def digest_queries(case, qrng):
@@ -1131,7 +1422,7 @@ def digest_queries(case, qrng):
     for e in pool:
         e2 = list(e)
         qrng.shuffle(e2)
-        qs.append(["overlap", e2])
+        qs.append(["overlap" if qrng.random() < 0.7 else "overlapin", e2])
         for _ in range(2):
             l = qrng.randrange(nl)
             qs.append([qrng.choice(["weight", "emeta"]), e2, l])
@@ -1141,7 +1432,7 @@ def digest_queries(case, qrng):
 # oracle-only questions (the aggregate in the statement's words); asked of the real object and the oracle
 ORACLE_ONLY = [["aggkeys"], ["aggweights"]]
 # asked of the real object and the Lean model only (the statement does not pin them down)
-MODEL_ONLY = {"aggedges", "agghmeta"}
+MODEL_ONLY = {"aggedges", "agghmeta", "dumpkeys"}
 
 
 def run_case(ctx, drv, case):
@@ -1182,7 +1473,8 @@ def _run_case(ctx, drv, case):
     problems = []      # (kind, what)
     lines, real_ans = [], []
     info = {"removals": 0, "reinserts": 0, "rej": 0, "ok": 0, "shared": 0, "notshared": 0, "requeried": 0, "promoted": 0,
-            "after_promotion": 0, "stats": {}}
+            "after_promotion": 0, "via": 0, "after_via": 0, "rej_fresh_layer": 0, "stats": {}}
+    NP_OK[0] = not case.get("nonp", False)
     try:
         orc = Oracle(weighted, hm0)
         lines.append(f"new {1 if weighted else 0} {w_meta(hm0)}")
@@ -1205,12 +1497,16 @@ def _run_case(ctx, drv, case):
         seen_keys = set(k for k in orc.E)
         steps = [None] + case["ops"]
 
-        def block(idx, op, cands, what):
+        def block(idx, op, cands, what, model=True, extra=()):
             """all queries; the answers must be those of the map (under one of the candidates); returns the map to go on with"""
             nonlocal orc
             real._agg = None
-            snap = real.snapshot()
-            qs = digest_queries(case, qrng)
+            # the before/after comparison calls library code (expose_data_structures) itself: a part of the blocks goes without,
+            # and an object that just came out of a loader is asked first
+            use_snap = not extra and zlib.crc32(f"snap/{idx}/{sty}/{len(lines)}/{what}".encode()) % 10 < 6
+            snap = real.snapshot() if use_snap else None
+            qs = digest_queries(case, qrng) + [list(q) for q in extra]
+            order = real.reg_order()
             ra = [real.query(q) for q in qs]
             ro = [real.query(q) for q in ORACLE_ONLY]
             o2, cand, diff = resolve(orc, cands, qs + ORACLE_ONLY, ra + ro)
@@ -1220,29 +1516,92 @@ def _run_case(ctx, drv, case):
                 return
             if len(cands) > 1:
                 info["shared" if cand else "notshared"] += 1
-            for x in cand:             # what the edit of the shared dict amounted to, for the model
-                lines.append(w_op(x))
-                real_ans.append("ok")
             orc = o2
-            for q, a in zip(qs, ra):
-                lines.append(w_q(q))
-                real_ans.append(a)
-            if real.snapshot() != snap:
+            if model:
+                for x in cand:             # what the edit of the shared dict amounted to, for the model
+                    lines.append(w_op(x))
+                    real_ans.append("ok")
+                for q, a in zip(qs, ra):
+                    lines.append(w_q(q, order))
+                    real_ans.append(a)
+            if use_snap and real.snapshot() != snap:
                 problems.append(("violation", f"after step {idx} {op}{what}: queries / aggregated_hypergraph / edge_overlap changed "
                                               f"the multiplex hypergraph itself"))
+
+        def via(idx, op, rs):
+            """the object goes through another part of the library (save + load in either format, pickle, deepcopy, the
+            serialisation dict); the history continues on the result ('go') or on the original ('stay'); BOTH must answer every
+            query like the map, and what the caller does to the one must not show in the other"""
+            nonlocal orc
+            kind, mode = real.via_kind(op[1], orc), op[2]
+            how = Real.TRANSPORTS[kind]
+            try:
+                g = real.transport(kind, rs)
+            except Exception as ex:
+                problems.append(("violation", f"step {idx} {op}: {how} raised {type(ex).__name__}: {ex}"))
+                return
+            if type(g) is not type(real.h):
+                problems.append(("violation", f"step {idx} {op}: {how} gives a {type(g).__name__}"))
+                return
+            independent = kind not in ("copy", "live")
+            if not independent:
+                mode = "go"
+            op = ["via", kind, mode]
+            orc_new, calls = orc.through_text() if kind == "json" else orc.through_ctor() if kind == "rebuild" else (orc, [])
+            old_h = real.h
+            if mode == "go":
+                main, other, orc_main, orc_other = g, old_h, orc_new, orc
+                if kind in ("hgx", "expose", "live"):
+                    lines.append("reload")
+                    real_ans.append("ok")
+                elif kind in ("json", "rebuild"):
+                    lines.append(f"new {1 if orc_new.w else 0} {w_meta([] if kind == 'json' else sorted(orc.hm.items()))}")
+                    real_ans.append("ok")
+                    for c in calls:
+                        lines.append(w_op(c))
+                        real_ans.append("ok")
+            else:
+                main, other, orc_main, orc_other = old_h, g, orc, orc_new
+            info["via"] += 1
+            real.h, orc = main, orc_main
+            who = "the result" if mode == "go" else "the original"
+            block(idx, op, [[]], f" (asked of {who} of {how})", extra=[] if DUMPKEYS_DIFFER[0] else [["dumpkeys"]])
+            if problems:
+                return
+            if independent:
+                real.h, orc = other, orc_other
+                block(idx, op, [[]], f" (asked of {'the original' if mode == 'go' else 'the result'} of {how})",
+                      model=orc_other is orc_main)
+                real.h, orc = main, orc_main
+                if problems:
+                    return
+                real.scribble(other, rs)
+                block(idx, op, [[]], f" (asked of {who} of {how}, after the caller changed the other of the two objects)")
 
         for idx, op in enumerate(steps):
             cands = [[]]
             what = ""
+            if op is not None and op[0] == "via":
+                via(idx, op, random.Random(zlib.crc32((json.dumps(op) + f"/{idx}/" + str(sty)).encode())))
+                if problems:
+                    break
+                continue
             if op is not None:
                 rs = random.Random(zlib.crc32((json.dumps(op) + "/" + str(sty)).encode()))
                 before = set(orc.E)
+                reg_before = set(orc.reg)
                 was_w = orc.w
                 a_real = real.apply(op, rs)
                 a_orc = orc.apply(op)
                 lines.append(w_op(op))
                 real_ans.append(a_real)
                 info["ok" if a_real == "ok" else "rej"] += 1
+                if info["via"] and a_real == "ok":
+                    info["after_via"] += 1
+                if a_orc == "rej" and op[0] in ("addedge", "addedges"):
+                    named = [op[2]] if op[0] == "addedge" else list(op[2])
+                    if any(l not in reg_before for l in named):
+                        info["rej_fresh_layer"] += 1
                 if a_real != a_orc:
                     problems.append(("violation", f"step {idx} {op}: the call is {'accepted' if a_real == 'ok' else 'rejected (raises)'}"
                                                   f" but on the map it is {'accepted' if a_orc == 'ok' else 'rejected'}"))
@@ -1283,6 +1642,10 @@ def _run_case(ctx, drv, case):
     if drv is not None:
         ans = drv.batch(lines)
         for ln, a, b in zip(lines, ans, real_ans):
+            if a != b and ln == "q dumpkeys":
+                if DUMPKEYS_DIFFER[0]:
+                    continue
+                DUMPKEYS_DIFFER[0] = True      # reported once per run, not asked again: the search for a failing input goes on
             if a != b:
                 return "disagree", f"line {ln!r}: model answers {a!r}, implementation {b!r}", info
         info["lines"] = len(lines)
@@ -1330,6 +1693,9 @@ def evaluate(ctx, drv, case, do_shrink=True):
     ctx.count("blocks_requeried_after_overwriting_returned_values", info["requeried"])
     ctx.count("promotions_by_weighted_batch", info["promoted"])
     ctx.count("accepted_calls_after_a_promotion", info["after_promotion"])
+    ctx.count("objects_through_save_load_pickle_copy", info["via"])
+    ctx.count("accepted_calls_on_such_objects", info["after_via"])
+    ctx.count("rejected_insertions_naming_an_unregistered_layer", info["rej_fresh_layer"])
     for k, v in info["stats"].items():
         ctx.count(k, v)
     ctx.count(f"labeling_{case['labeling']}")
@@ -1375,6 +1741,28 @@ SEEDS = [
      "pool": [[0, 1], [0, 1, 2], [2]], "labeling": 8, "qseed": 8, "sty": 8,
      "ops": [["addedge", [1, 0], 0, 1, None], ["addedge", [0, 1, 2], 2, 6, None], ["rmnode", 1, True], ["rmnode", 0, True],
              ["setw", [2], 2, 10]]},
+    # round d. layer names of unorderable types (2019, 'all-time', None), weighted: overlap / aggregate / registry
+    {"n": 4, "nl": 4, "weighted": True, "hm0": [], "ctor": None, "pool": [[0, 1, 2], [1, 2], [3]], "labeling": 11, "qseed": 9, "sty": 9,
+     "ops": [["addedge", [0, 1, 2], 0, 8, None], ["addedge", [2, 1, 0], 2, 6, [[100, 5]]], ["addedge", [1, 2], 3, 2, None],
+             ["addedge", [1, 2, 0], 3, 4, None], ["rmnode", 0, True], ["addedge", [3], 1, 4, None], ["rmedge", [3], 1]]},
+    # an object with a phantom layer goes through the binary format, pickle and the text format and is used afterwards
+    {"n": 4, "nl": 3, "weighted": True, "hm0": [], "ctor": None, "pool": [[0, 1, 2], [1, 2], [2, 3]], "labeling": 3, "qseed": 10, "sty": 10,
+     "nonp": True,
+     "ops": [["addedge", [0, 1, 2], 0, 8, [[100, 5]]], ["addedge", [0, 1, 2], 1, 10, None], ["addedge", [1, 2], 1, 6, None],
+             ["addedge", [2, 3], 2, 4, None], ["rmedge", [3, 2], 2], ["via", "hgx", "go"], ["addedge", [0, 1, 2], 2, 4, None],
+             ["rmnode", 0, True], ["via", "pickle", "stay"], ["addedge", [2, 3], 0, 2, None], ["via", "json", "go"],
+             ["addedge", [2, 1], 0, 2, None], ["rmnode", 3, False], ["via", "deepcopy", "go"], ["setw", [1, 2], 1, 0],
+             ["via", "json", "stay"], ["via", "rebuild", "go"]]},
+    # loaded / rebuilt objects as STARTING points, unweighted, mixed layer names with string twins ("None" / None, 0.0 / "0")
+    {"n": 4, "nl": 5, "weighted": False, "hm0": [[100, 5]], "ctor": [[[3, [[101, 6]]]], [[0, 1], [1, 0], [2]], [0, 1, 4], None, None, True],
+     "pool": [[0, 1], [0, 1, 2], [2]], "labeling": 16, "qseed": 11, "sty": 11, "nonp": True,
+     "ops": [["via", "json", "go"], ["addedge", [0, 1], 3, None, None], ["via", "rebuild", "go"], ["addedge", [0, 1, 2], 2, 8, None],
+             ["addedges", [[0, 1], [2]], [3, 2], [6, 2], None], ["rmnode", 1, True], ["via", "expose", "go"], ["addedge", [0], 1, 4, None]]},
+    # hash-colliding labels (-1 / -2, 2**61-1 / 0) and layer names (-1, -2, 2**61-1, 0, "-1")
+    {"n": 6, "nl": 5, "weighted": True, "hm0": [], "ctor": None, "pool": [[0, 1], [0, 1, 2], [2, 4], [1, 4]], "labeling": 13, "qseed": 12,
+     "sty": 12, "ops": [["addedge", [0, 1], 0, 8, None], ["addedge", [1, 0], 1, 6, None], ["addedge", [2, 4], 2, 2, None],
+                        ["addedge", [4, 2, 1], 3, 4, None], ["addedge", [0, 1], 4, 10, None], ["rmnode", 1, True], ["rmnode", 4, True],
+                        ["addedge", [0], 1, 2, None], ["rmedge", [0], 0]]},
 ]
 
 
